@@ -18,7 +18,7 @@ import (
 
 func TestMain(m *testing.M) { kit.Main(m) }
 
-const rule = "providers with custom / default / empty-custom names (several per type) x consumers whose single-valued fields (*T, interface, any) request a name that is present+compatible, absent, present+incompatible or a default package/type name, required or optional, pre-filled with a sentinel, next to other fields; plus duplicate-name registration attempts; oracle: compatible -> exactly that component, otherwise error iff required and sentinel untouched when optional; non-trivial = the named point has >=2 providers assignable to its type, or takes the absent / incompatible branch; distinct by scenario shape"
+const rule = "providers with custom / default / empty-custom names (several per type) x consumers whose single-valued fields (*T, interface, any) request a name that is present+compatible, absent, present+incompatible or a default package/type name, required or optional, pre-filled with a sentinel, next to other fields; plus duplicate-name registration attempts; oracle: compatible -> exactly that component, otherwise error iff required and sentinel untouched when optional; non-trivial = the named point has >=2 providers assignable to its type, or takes the absent / incompatible branch; distinct by scenario shape; since rounds 7/8 also the spellings ',required' / '=true' / '=yes' (only required=false makes a point optional), lazy nodes populated after another container started, and a named cycle decorated after initialization"
 
 var kinds = []int{0, 0, 1, 2, 3, 5, 7, 8, 11, 11, 11, 12, 16, 16, 17, 17, 18, 22, 22, 23, 23} // 16 = PNE (by-name points inside an unexported embedded struct); 17, 18 = PA, PB of ANOTHER package that is also called zoo
 var names = []string{"n1", "n2", "n3", "n4", "n5"}
